@@ -565,6 +565,7 @@ func runC19(rc *RunCtx) {
 		rc.Cov.Sample(map[string]interface{}{"registry_sizes": map[string]int{"attesters": len(e.M.Attesters), "pairs": len(e.M.Pairs), "messengers": len(e.M.Messengers), "used": len(e.M.Used), "limits": len(e.M.Limits)},
 			"history_tail": e.history[max(0, len(e.history)-8):]})
 	}
+	ProbeHistory(rc, rc.Pick(200, 800), false)
 	// (2) more than 100 entries: the default page limit is crossed
 	if rc.Shard == 0 {
 		e, err := StdEngine(rc, false, false, func(gs *ct.GenesisState, cfg *chain.Config) {
